@@ -30,7 +30,9 @@ C13Cases == {[kind |-> "c13s", rule |-> t, pl |-> "single", sur |-> "plain"] : t
             \cup {[kind |-> "c13m", rule |-> t, pl |-> "method", sur |-> "plain"] : t \in C13MethodShapes}
             \cup {[kind |-> "twin", rule |-> t, pl |-> "top", sur |-> "plain"] : t \in Twins}
 
-C18Cases == {[kind |-> "c16", rule |-> sh, pl |-> "plain", sur |-> "plain"] : sh \in Shapes \ {"no_go_package", "long_names", "svc_no_methods"}}
+\* (path_braces: templates whose braces do not form variables are answered, C16 - what a document should say
+\* about them is not defined, they are outside "accepted schemas")
+C18Cases == {[kind |-> "c16", rule |-> sh, pl |-> "plain", sur |-> "plain"] : sh \in Shapes \ {"no_go_package", "long_names", "svc_no_methods", "path_braces"}}
             \cup {[kind |-> "twin", rule |-> t, pl |-> "top", sur |-> "plain"] : t \in Twins}
             \cup {[kind |-> "c18", rule |-> sh, pl |-> "doc", sur |-> "plain"] : sh \in C18Shapes}
 
